@@ -414,7 +414,7 @@ def _check_one(arg):
         open(path, "w").write(orig)
 
 
-def cmd_check(jobs, only=None, cheap=False, ids=None, redo=None, skip_triaged=True):
+def cmd_check(jobs, only=None, cheap=False, ids=None, redo=None, skip_triaged=True, only_checks=None, par=None):
     """cheap pass: only the checks that take seconds; full pass: the remaining ones for mutants still silent"""
     idx = {m["id"]: m for m in load("index.json", None)["mutants"]}
     tests = load("tests.json", {})
@@ -429,13 +429,16 @@ def cmd_check(jobs, only=None, cheap=False, ids=None, redo=None, skip_triaged=Tr
             continue
         if redo:
             done = {c: x for c, x in done.items() if c not in redo}
-        todo = [c for c in checks_for(idx[i], cheap) if c not in done]
-        if skip_triaged and i in triage and not redo:
+        todo = [c for c in (only_checks or checks_for(idx[i], cheap)) if c not in done]
+        if skip_triaged and i in triage and not redo and not ids:
             continue
         if todo:
             work.append((idx[i], 4, todo))
     print(len(work), "survivors to check,", len(res), "have results")
-    par = max(1, jobs // 4) if not cheap else jobs // 2
+    if par is None:
+        par = max(1, jobs // 4) if not cheap else jobs // 2
+    per = max(1, jobs // par)
+    work = [(m, per, todo) for m, _, todo in work]
     t0 = time.time()
     with mp.get_context("fork").Pool(par) as pool:
         try:
@@ -519,7 +522,9 @@ if __name__ == "__main__":
         redo = None
         if "--redo" in sys.argv:
             redo = set(sys.argv[sys.argv.index("--redo") + 1].split(","))
-        cmd_check(jobs, only, cheap="--cheap" in sys.argv, ids=ids, redo=redo)
+        oc = sys.argv[sys.argv.index("--only-checks") + 1].split(",") if "--only-checks" in sys.argv else None
+        par = int(sys.argv[sys.argv.index("--par") + 1]) if "--par" in sys.argv else None
+        cmd_check(jobs, only, cheap="--cheap" in sys.argv, ids=ids, redo=redo, only_checks=oc, par=par)
     elif cmd == "try":
         # run some checks on one mutant without recording anything
         m = find(sys.argv[2])
